@@ -282,6 +282,27 @@ func TestC16(t *testing.T) {
 		}
 	})
 
+	// (b2) model-based: random Peek / Next histories against the unpeeked stream
+	st.Rapid(t, "peek-next-machine", cfg.N(6000, 300000), func(rt *rapid.T) {
+		var s string
+		if rapid.Bool().Draw(rt, "printed") {
+			s = gen.Text(gen.GenTree(gen.ParseCfg).Draw(rt, "tree"), gen.Opts{Fill: gen.GenFill().Draw(rt, "fill")})
+			if rapid.IntRange(0, 3).Draw(rt, "broken") == 0 {
+				s += rapid.SampledFrom([]string{` "x`, " #", " /re", " '"}).Draw(rt, "tail")
+			}
+		} else {
+			s = string(rapid.SliceOfN(rapid.SampledFrom(c16Alphabet), 0, 24).Draw(rt, "alpha"))
+		}
+		st.Eval()
+		c := C16Case{Input: []byte(s), Quoted: fmt.Sprintf("%q", s)}
+		if f := peekNextMachine(rt, s); f != nil {
+			st.Violate("peek-next-machine", c, f)
+			rt.Fatalf("violation")
+		}
+		st.Class("peek-next-history")
+		st.NonTrivial("machine\x00" + s)
+	})
+
 	// (c) printed valid queries with whitespace fillers, and the same with a
 	// lexical error inserted at a token boundary (clause 6b)
 	badRunes := []string{"|", "!", ";", "&", "#", ",", "%", "→", "\x00", "\xA9", "@", "$", "`"}
@@ -313,6 +334,52 @@ func TestC16(t *testing.T) {
 			rt.Fatalf("violation")
 		}
 	})
+}
+
+// peekNextMachine drives one lexer with a random interleaving of Peek and Next
+// calls against the token list of an unpeeked twin (model-based, rapid's
+// state-machine mode): Peek returns model[i] and leaves i alone, Next returns
+// model[i] and advances; past the end both keep returning end-of-input.
+func peekNextMachine(rt *rapid.T, s string) *report.Failure {
+	var model []lex.Token
+	twin := lex.Lex(s)
+	for i := 0; i <= len(s)+2; i++ {
+		tk := twin.Next()
+		model = append(model, tk)
+		if tk.Typ == lex.TEOF {
+			break
+		}
+	}
+	at := func(i int) lex.Token {
+		if i >= len(model) {
+			return model[len(model)-1]
+		}
+		// after an error token the stream is at its end
+		for k := 0; k < i && k < len(model); k++ {
+			if model[k].Typ == lex.TErr {
+				return lex.Token{Typ: lex.TEOF, Val: "EOF"}
+			}
+		}
+		return model[i]
+	}
+	l := lex.Lex(s)
+	i := 0
+	var f *report.Failure
+	same := func(a, b lex.Token) bool { return a.Typ == b.Typ && (a.Val == b.Val || a.Typ == lex.TEOF) }
+	rt.Repeat(map[string]func(*rapid.T){
+		"peek": func(t *rapid.T) {
+			if got := l.Peek(); f == nil && !same(got, at(i)) {
+				f = report.Failf("peek-next-history", "on %q after %d Next calls Peek returned %v/%q, the unpeeked stream has %v/%q there", s, i, got.Typ, got.Val, at(i).Typ, at(i).Val)
+			}
+		},
+		"next": func(t *rapid.T) {
+			if got := l.Next(); f == nil && !same(got, at(i)) {
+				f = report.Failf("peek-next-history", "on %q Next call %d returned %v/%q, the unpeeked stream has %v/%q there", s, i+1, got.Typ, got.Val, at(i).Typ, at(i).Val)
+			}
+			i++
+		},
+	})
+	return f
 }
 
 // joinWithInsert joins tokens and inserts bad as its own space-separated piece
